@@ -7,6 +7,7 @@ vs code) and with the declarative reading of the same history
 (`specwatch` = Spec.Transactions.reports, the property oracle).  Decoding uses
 the real `dali.command.from_frame` on both sides; only the *context* (which
 device type, which pairing) comes from the model / specification."""
+from common import exc_name  # noqa: E402
 import asyncio
 
 from common import Model
@@ -74,7 +75,7 @@ class Decoder:
                 # "decoded in context": decoding an observed frame never fails (C01).  Kept for correspond() to
                 # report with the frame; the history goes on with the generic command the library returns for
                 # frames it does not know, so that what the DRIVER does with such a frame is still observed
-                DECODE_FAILURES.append((bits, data, dt, type(e).__name__))
+                DECODE_FAILURES.append((bits, data, dt, exc_name(e)))
                 self.cache[k] = command.Command(frame.ForwardFrame(bits, data))
         return self.cache[k]
 
